@@ -103,7 +103,13 @@ where
     }
 
     fn open_file(&self, path: &str) -> VfsResult<Box<dyn SeekAndRead + Send>> {
-        match T::get(normalize_path(path)?) {
+        let normalized_path = normalize_path(path)?;
+        if !self.files.contains_key(normalized_path) {
+            // rust-embed's lookup is more lenient than its file list (it rewrites backslashes and, in
+            // debug builds, resolves the path on disk), so only ask it for paths that are listed
+            return Err(VfsErrorKind::FileNotFound.into());
+        }
+        match T::get(normalized_path) {
             None => Err(VfsErrorKind::FileNotFound.into()),
             Some(file) => Ok(Box::new(Cursor::new(file.data))),
         }
